@@ -5,7 +5,8 @@
    (UNIQUE constraints of the tables mailboxes/messages/mailbox_message_<id>, the per-mailbox AUTOINCREMENT UID),
    internal/state/updates_mailbox.go (AddMessagesToMailbox / RemoveMessagesFromMailbox) and the state updates they
    queue.  The model follows the code AFTER notes/C08-fix-3 (= C06-fix-1), C06-fix-2 (MessageIDChanged also rewrites the
-   per-mailbox remote-id column) and C06-fix-3 (MessageDeleted releases the remote id at once).
+   per-mailbox remote-id column) and C06-fix-3 (MessageDeleted releases the remote id at once) and C06-fix-4 (the sessions learn a new message remote id
+   through a queued state update).
 
    One connector update runs in ONE database transaction: the body is a function into [option]; [None] is "an error
    was returned" = the transaction is rolled back (SQLite atomic commit) and the error is handed to Done(err).
@@ -53,10 +54,11 @@ Inductive cu_su :=
 | SuFlagRem (ms f : N)
 | SuMailboxDeleted (mb : N)
 | SuMailboxRid (mb rid : N)
+| SuMessageRid (ms rid : N)          (* C06-fix-4: the sessions patch the remote id in their snapshots themselves *)
 | SuUidValidityBumped.
 
 (* what a client can notice: everything except the bookkeeping of a mailbox's remote id *)
-Definition cu_visible (u : cu_su) : bool := match u with SuMailboxRid _ _ => false | _ => true end.
+Definition cu_visible (u : cu_su) : bool := match u with SuMailboxRid _ _ | SuMessageRid _ _ => false | _ => true end.
 
 Record cu_item := mkItem { it_rid : N; it_lit : N; it_flags : list N; it_mboxes : list N }.
 
@@ -437,7 +439,7 @@ Definition cu_tx (s : cu_state) (e : cu_env) (u : cu_update) : option (cu_state 
           else
             let s1 := cu_upd_ms s iid (fun x => mkMs (ms_id x) (Some rid) (ms_lit x) (ms_flags x) (ms_del x)) in
             Some (cu_with_me s1 (map (fun x => if me_ms x =? iid then mkMe (me_mb x) (me_uid x) (me_ms x) rid else x)
-                                     (st_me s1)), [])
+                                     (st_me s1)), [SuMessageRid iid rid])
       end
 
   | UUIDValidityBumped =>
